@@ -6,11 +6,12 @@ import MpVerif.C20.ModelExport
   P <hex>            parse a text -> `some <canonical form>` | `none`
   reset              forget graph lines and delivered log
   L <hex>            one line of the export (raw bytes, hex) -> `rec <tag>` | `nojson` | `noobj` | `unknown` | `badutf8`
-  N a b c d          NL sizes: vars objs algebraic-cons logical-cons
+  N a b c d e        NL sizes: vars objs algebraic-cons logical-cons common-expressions
   v ty lbInf ubInf   one delivered variable (type 0/1, bound-is-infinite flags 0/1), in index order
   o sense lin q1 q2  one delivered objective (sense 0/1; comma-separated variable lists or `-`), in index order
   C <hexty> g <hexname>   one delivered constraint (short type name, group, name)
   check              -> `ok` | `fail <reasons>`
+  WA <op>* / XA <op>*  which arms of `step`/`escChar` resp. `addEntry`/`addRange` the sequence takes (coverage note only)
   X <op>*            link-export protocol: ops `a:<c|o|m>:<src>:<sb>:<se>:<dst>:<db>:<de>` (AddEntry) and `f` (finish)
                      -> `<hex of the exported text> <final entries by registered range> all=<0|1> late=<0|1>`
 -/
@@ -87,7 +88,7 @@ def natCsv (s : String) : Option (List Nat) :=
 structure DState where
   lines : List (Option Rec) := []      -- reversed
   bad : Bool := false
-  d : Delivered := ⟨0, 0, 0, 0, [], [], []⟩
+  d : Delivered := ⟨0, 0, 0, 0, 0, [], [], []⟩
 
 partial def loop (h : IO.FS.Stream) (out : IO.FS.Stream) (st : DState) : IO Unit := do
   let line ← h.getLine
@@ -106,6 +107,17 @@ partial def loop (h : IO.FS.Stream) (out : IO.FS.Stream) (st : DState) : IO Unit
       | none => out.putStrLn "none"
       loop h out st
     | some none => out.putStrLn "badutf8"; loop h out st
+    | none => out.putStrLn "bad-op"; loop h out st
+  | "WA" :: ops =>
+    match ops.mapM parseOp with
+    | some os =>
+      let strs := os.filterMap (fun o => match o with | .key k => some k | .string t => some t | _ => none)
+      out.putStrLn (" ".intercalate (runArms WState.init os ++ (strs.flatMap (fun t => t.map (fun c => "esc:" ++ escArm c))).eraseDups))
+      loop h out st
+    | none => out.putStrLn "bad-op"; loop h out st
+  | "XA" :: ops =>
+    match ops.mapM parseXOp with
+    | some os => out.putStrLn (" ".intercalate (xrunArms {} os)); loop h out st
     | none => out.putStrLn "bad-op"; loop h out st
   | "X" :: ops =>
     match ops.mapM parseXOp with
@@ -128,12 +140,12 @@ partial def loop (h : IO.FS.Stream) (out : IO.FS.Stream) (st : DState) : IO Unit
       | some _ => out.putStrLn "noobj"; loop h out { st with bad := true }
     | some none => out.putStrLn "badutf8"; loop h out { st with bad := true }
     | none => out.putStrLn "bad-op"; loop h out st
-  | ["N", a, b, c, d] =>
-    match a.toNat?, b.toNat?, c.toNat?, d.toNat? with
-    | some a, some b, some c, some d =>
+  | ["N", a, b, c, d, e] =>
+    match a.toNat?, b.toNat?, c.toNat?, d.toNat?, e.toNat? with
+    | some a, some b, some c, some d, some e =>
       out.putStrLn "ok"
-      loop h out { st with d := { st.d with nlVars := a, nlObjs := b, nlAlgCons := c, nlLogCons := d } }
-    | _, _, _, _ => out.putStrLn "bad-op"; loop h out st
+      loop h out { st with d := { st.d with nlVars := a, nlObjs := b, nlAlgCons := c, nlLogCons := d, nlDefVars := e } }
+    | _, _, _, _, _ => out.putStrLn "bad-op"; loop h out st
   | ["v", a, b, c] =>
     match a.toNat?, b.toNat?, c.toNat? with
     | some a, some b, some c =>
